@@ -79,6 +79,19 @@ CHECKS = {
          'corpus including scope=True and filters.',
          'TLC model checking + bidirectional conformance: spec behaviours replayed into pfst with yield-sequence comparison, '
          'real executions trace-validated by TLC (WalkAccept) with clause-named verdicts'),
+ 'C07': ('model_checking', '4-C07',
+         'TLC checks ExtractMC (conservation/window laws accept the reference extraction and reject defective ones for all '
+         'containers <= 5 elements x 4 shapes x all slices) and validates against ExtractTrace/ExtractLaws every '
+         'Copy/Get/GetSlice and Cut event (three clones each) of every node and slice of 46 programs x layouts x option sets: '
+         'Undisturbed, SelfContained (parses in the spec-defined embedding, positions equal), Faithful.struct, Cut = copy + '
+         'delete, Conserve.tokens/comment. Explicit embedding table and named domain predicates.',
+         'TLA+ model + TLC trace validation of recorded executions; oracles ast / tokenize'),
+ 'C08': ('model_checking', '4-C08',
+         'TLC validates CutPutBack, ReplaceBy (copy, copy_ast, re-parse, own source; repeated <= 3), OwnSrc, and put/get of '
+         'docstrings and line comments over seeded adversarial texts (quick ~3.9k, thorough ~108k) against ExtractLaws: '
+         'read-back, what the source denotes, Sync and only-that-changed are separate named clauses; ExtractMC model-checks '
+         'PutBackRestores / CutThenPutBack on small containers.',
+         'TLA+ model + TLC trace validation of recorded executions; oracles ast / tokenize'),
 }
 
 NOT_YET = {}
